@@ -5,7 +5,7 @@ import os
 import re
 
 from vf.extract import extract_item, ExtractError
-from vf.unit import Unit, pull_in_helpers, split_or_pattern_guard_arms
+from vf.unit import Unit, pull_in_helpers, split_or_pattern_guard_arms, pull_work_helpers
 
 HERE = os.path.dirname(os.path.abspath(__file__))
 
@@ -274,6 +274,11 @@ impl<'a> SymbolicCompiler<'a> {''')
         cb.before('continue;', '''proof { lemma_arm_bin::<CF>(t0, tasks@, ns0, key, *node); }''', nth=n_)
     cb.bind_tail('res_', 'proof { assert(ns =~= seq![*expr]); }')
     u.emit(cb)
+    wh_ = pull_work_helpers(u, [cb], 'SymbolicExpression<CF>', '')
+    if wh_:
+        u.text("}\nimpl<'a, CF: Copy> Work<'a, SymbolicExpression<CF>, NodeKey> {")
+        for h_ in wh_:
+            u.emit(h_)
     u.text('''}
 /// pushing a value that denotes node n keeps the stacks aligned (values of older entries are preserved by `extends`)
 pub proof fn lemma_stack_push<CF, F: Field>(a: &CircuitBuilder<F>, b: &CircuitBuilder<F>, lv: LeafVals<F>, st: Seq<ExprId>, ns: Seq<SymbolicExpression<CF>>, id: ExprId, n: SymbolicExpression<CF>)
